@@ -633,6 +633,9 @@ class CondTag(object):
         raise Unsupported("hash(CondTag)")
 
     def __getattr__(self, name):
+        if name in ("startswith", "endswith"):
+            # Boolean string predicates: true for this element only if the tag is present
+            return lambda *a: self.holds(getattr(self.text, name)(*a))
         raise Unsupported("CondTag.%s" % name)
 
     def __str__(self):
